@@ -15,6 +15,9 @@ pub fn run_check(prop: &str, tier: Tier, seed: u64) -> Option<Verdict> {
     crate::history::assert_layout();
     crate::shadow::install();
     crate::outcome::silence_panics();
+    if let Some(v) = replay_corpus(prop, tier, seed) {
+        return Some(v);
+    }
     Some(match prop {
         "C01" => histories::c01(tier, seed),
         "C02" => histories::c02(tier, seed),
@@ -50,4 +53,35 @@ pub fn replay_other(_prop: &str, kind: &str, case: &serde_json::Value) -> Option
         "niche" | "clone_sweep" | "ctor" => sweeps::replay_sweep(kind, case),
         _ => None,
     }
+}
+
+/// Regression tier: every saved case of this property under /verif/corpus is re-executed first.
+/// A case that fails again is reported like any other violation (a fixed finding suppresses nothing).
+fn replay_corpus(prop: &str, tier: Tier, seed: u64) -> Option<Verdict> {
+    let dir = crate::runner::verif_dir().join("corpus");
+    let mut names: Vec<std::path::PathBuf> = std::fs::read_dir(&dir).ok()?.filter_map(|e| e.ok().map(|e| e.path())).collect();
+    names.sort();
+    let mut n = 0;
+    for path in names {
+        let Ok(bytes) = std::fs::read(&path) else { continue };
+        let Ok(doc) = serde_json::from_slice::<serde_json::Value>(&bytes) else { continue };
+        if doc.get("property").and_then(|p| p.as_str()) != Some(prop) {
+            continue;
+        }
+        let Some(case) = doc.get("case") else { continue };
+        let Some(fails) = replay::replay_case(prop, case) else { continue };
+        n += 1;
+        if let Some((step, clause, detail)) = fails.into_iter().find(|(_, c, _)| c.starts_with(prop)) {
+            println!("regression corpus case {} fails again", path.display());
+            let mut m = crate::runner::Merged::new();
+            m.evaluations = n;
+            m.samples.push(case.clone());
+            m.violation = Some(crate::runner::Violation { case: case.clone(), clause, step, detail });
+            return Some(crate::runner::finish(prop, tier, seed, "exploration", "regression corpus replay (saved cases of earlier findings)", &[], &m, 0.0, "lsv"));
+        }
+    }
+    if n > 0 {
+        eprintln!("regression corpus: {n} saved case(s) of {prop} pass");
+    }
+    None
 }
